@@ -10,6 +10,9 @@ package nsqd
 import (
 	"bufio"
 	"fmt"
+	"math/big"
+	"sync/atomic"
+	"time"
 	"os"
 	"path/filepath"
 	"strings"
@@ -538,6 +541,105 @@ func (g *vfE3Gen) stream() (s []byte, class string) {
 	return
 }
 
+// inflightScenario exercises the success paths of FIN / REQ / TOUCH: messages are put in flight for
+// the client id the next connection will get (white-box), the connection SUBscribes to that channel
+// and finishes / requeues / touches them. Afterwards the real channel is inspected: a finished message
+// is gone, a requeued one sits in the deferred queue with a due time inside
+// [t0 + d, t1 + d] where d = min(number x 1 ms, max-req-timeout) is computed here with big integers
+// (no Lean, no model), or in the memory queue when d = 0.
+func (g *vfE3Gen) inflightScenario(v *vfE3Node) (op string, impl string, fails []string) {
+	o := v.n.getOpts()
+	topic := v.n.GetTopic("inf")
+	ch := topic.GetChannel("ch")
+	nextID := atomic.LoadInt64(&v.n.clientIDSequence) + 1
+	n := 1 + g.r.Intn(3)
+	ids := make([]MessageID, n)
+	var idHex []string
+	for i := range ids {
+		copy(ids[i][:], fmt.Sprintf("m%02d-%012d", i, g.r.Intn(1000000)))
+		msg := NewMessage(ids[i], []byte(fmt.Sprintf("body%d", i)))
+		ch.StartInFlightTimeout(msg, nextID, time.Hour)
+		idHex = append(idHex, vfHex(ids[i][:]))
+	}
+	stream := []byte("  V2SUB inf ch\n")
+	type want struct {
+		kind string
+		dur  *big.Int
+	}
+	wants := map[int]want{}
+	for k := 1 + g.r.Intn(4); k > 0; k-- {
+		i := g.r.Intn(n)
+		switch g.r.Intn(5) {
+		case 0:
+			stream = append(stream, []byte("FIN "+string(ids[i][:])+"\n")...)
+			if _, done := wants[i]; !done {
+				wants[i] = want{kind: "gone"}
+			}
+		case 1, 2, 3:
+			num := g.number(int64(o.MaxReqTimeout / 1e6))
+			stream = append(stream, []byte("REQ "+string(ids[i][:])+" "+num+"\n")...)
+			if _, done := wants[i]; !done {
+				if v, ok := new(big.Int).SetString(num, 10); ok && num != "" && strings.Trim(num, "0123456789") == "" && v.BitLen() <= 64 {
+					d := new(big.Int).Mul(v, big.NewInt(1000000))
+					if max := big.NewInt(int64(o.MaxReqTimeout)); d.Cmp(max) > 0 {
+						d = max
+					}
+					wants[i] = want{kind: "req", dur: d}
+				} else if num == "" {
+					wants[i] = want{kind: "req", dur: big.NewInt(0)}
+				} else {
+					// unparsable: fatal E_INVALID, the connection ends here
+					k = 1
+				}
+			}
+		default:
+			stream = append(stream, []byte("TOUCH "+string(ids[i][:])+"\n")...)
+		}
+	}
+	t0 := time.Now().UnixNano()
+	res := v.RunConn(stream, g.r)
+	t1 := time.Now().UnixNano()
+	var states []string
+	for i, id := range ids {
+		st := "inflight"
+		ch.inFlightMutex.Lock()
+		_, inF := ch.inFlightMessages[id]
+		ch.inFlightMutex.Unlock()
+		ch.deferredMutex.Lock()
+		item, inD := ch.deferredMessages[id]
+		ch.deferredMutex.Unlock()
+		inM := false
+		for _, m := range vfE3DrainChan(ch.memoryMsgChan) {
+			if m.ID == id {
+				inM = true
+			}
+		}
+		switch {
+		case inF:
+			st = "inflight"
+		case inD:
+			st = fmt.Sprintf("deferred:?%d", item.Priority-t0)
+			if w, ok := wants[i]; ok && w.kind == "req" && w.dur.IsInt64() {
+				d := w.dur.Int64()
+				if item.Priority >= t0+d && item.Priority <= t1+d {
+					st = fmt.Sprintf("deferred:%d", d)
+				} else {
+					fails = append(fails, fmt.Sprintf("ORACLE-FAIL key=req-clamp stream=%s conf=%s what=REQ of %s was deferred by about %d ns; min(number x 1ms, max-req-timeout) = %d ns",
+						vfHex(stream), v.id, string(id[:]), item.Priority-t0, d))
+				}
+			}
+		case inM:
+			st = "requeued"
+		default:
+			st = "gone"
+		}
+		states = append(states, vfHex(id[:])+"="+st)
+	}
+	op = fmt.Sprintf("iof %s %s %s", v.id, vfHex(stream), strings.Join(idHex, ","))
+	impl = fmt.Sprintf("R=%s E=%s S=%s F=%s", vfE3JoinOr(",", res.replies), res.end, res.conn, strings.Join(states, ","))
+	return
+}
+
 // ---------------------------------------------------------------- the tests
 
 func vfE3Nodes(t *testing.T) map[string]*vfE3Node {
@@ -620,6 +722,15 @@ func TestVerifE3Proto(t *testing.T) {
 		g := &vfE3Gen{r: vfNewRand(uint64(1000 + i)), v: v, hist: hist, json: map[string]bool{}}
 		out.Case("reset", "ok")
 		v.Reset()
+		if id != "T" && g.r.Intn(12) == 0 {
+			op, impl, fl := g.inflightScenario(v)
+			out.Case(op, impl)
+			hist["stream:inflight-scenario"]++
+			for _, f := range fl {
+				fail("%s", f)
+			}
+			continue
+		}
 		nconn := 1
 		if g.r.Intn(5) == 0 {
 			nconn = 2 + g.r.Intn(2)
